@@ -402,3 +402,374 @@ theorem stripT_assembleT_ascii (segs : List SegT) (hs : ∀ g ∈ segs, g.ascii)
   exact ⟨by rw [e1, hst]; simp, e2⟩
 
 end ErrModel
+
+namespace ErrModel
+
+/-! ### the write machine on text whose newlines are interior and isolated (non-detail mode) -/
+
+/-- `NlOK ne pend t`: reading `t` with "something has been written" = `ne` and "a newline is
+    pending" = `pend`, every newline token comes after some text and not right after another newline -/
+def NlOK : Bool → Bool → Toks → Prop
+  | _, _, [] => True
+  | ne, pend, x :: r => if x = nlT then (ne = true ∧ pend = false ∧ NlOK ne true r) else NlOK true false r
+
+/-- the state after reading `t` -/
+def nlEnd : Bool → Bool → Toks → Bool × Bool
+  | ne, pend, [] => (ne, pend)
+  | ne, _, x :: r => if x = nlT then nlEnd ne true r else nlEnd true false r
+
+/-- what has been emitted so far, stripped: the buffer, the current chunk, and the pending newline -/
+def outOf (s : LState) (chunk : Toks) : Str :=
+  stripT s.buf ++ stripT chunk ++ (if s.needNewline = 1 then [nl] else [])
+
+structure WInv (s : LState) (chunk : Toks) : Prop where
+  nd : s.wantDetail = false
+  sp : s.needSpace = false
+  le : s.needNewline ≤ 1
+  pendOK : s.needNewline = 1 → s.notEmpty = true ∧ chunk = []
+  chunkOK : chunk ≠ [] → s.notEmpty = true
+
+theorem writeLoop_regular : (rest : Toks) → (s : LState) → (chunk : Toks) → WInv s chunk →
+    NlOK s.notEmpty (decide (s.needNewline = 1)) rest →
+    WInv (writeLoop s chunk rest) [] ∧
+    outOf (writeLoop s chunk rest) [] = outOf s chunk ++ stripT rest ∧
+    ((writeLoop s chunk rest).notEmpty, decide ((writeLoop s chunk rest).needNewline = 1)) =
+      nlEnd s.notEmpty (decide (s.needNewline = 1)) rest ∧
+    (writeLoop s chunk rest).headBuf = s.headBuf ∧ (writeLoop s chunk rest).hasDetail = s.hasDetail
+  | [], s, chunk, hi, _ => by
+    unfold writeLoop
+    refine ⟨⟨hi.nd, hi.sp, hi.le, fun h => ⟨(hi.pendOK h).1, rfl⟩, fun h => absurd rfl h⟩, ?_, rfl, rfl, rfl⟩
+    simp [outOf, stripT_append]
+  | x :: r, s, chunk, hi, hok => by
+    obtain ⟨buf, hbuf, hdet, wd, ne, nsp, nn, ml⟩ := s
+    have hwd : wd = false := hi.nd
+    have hsp : nsp = false := hi.sp
+    subst hwd
+    subst hsp
+    unfold writeLoop
+    by_cases hx : x = nlT
+    · subst hx
+      simp only [if_true, NlOK] at hok ⊢
+      obtain ⟨hne, hp, hrest⟩ := hok
+      have hnn : nn = 0 := by
+        have := hi.le
+        have hp' : ¬ nn = 1 := by simpa using hp
+        simp only at this
+        omega
+      subst hnn
+      have hne' : ne = true := hne
+      subst hne'
+      simp only [Bool.false_eq_true, if_false]
+      let S1 : LState := ⟨buf ++ chunk, hbuf, hdet, false, true, false, 0 + 1, true⟩
+      have hi1 : WInv S1 [] := ⟨rfl, rfl, by simp [S1], fun _ => ⟨rfl, rfl⟩, fun h => absurd rfl h⟩
+      obtain ⟨a1, a2, a3, a4, a5⟩ := writeLoop_regular r S1 [] hi1 (by simpa [S1] using hrest)
+      refine ⟨a1, ?_, ?_, a4, a5⟩
+      · rw [a2]
+        simp [outOf, S1, stripT_append, nlT, List.append_assoc]
+      · rw [a3]
+        simp [nlEnd, S1]
+    · simp only [hx, if_false, NlOK] at hok ⊢
+      simp only [Bool.false_eq_true, if_false]
+      by_cases hp : nn = 1
+      · subst hp
+        obtain ⟨hne, hch⟩ := hi.pendOK rfl
+        have hne' : ne = true := hne
+        subst hne'
+        subst hch
+        simp only [Nat.lt_add_one, Nat.zero_lt_one, decide_true, Bool.and_self, if_true, Nat.sub_self, List.replicate_zero,
+          List.flatten_nil, List.append_nil, Nat.lt_irrefl]
+        let S2 : LState := ⟨buf ++ nlTs, hbuf, hdet, false, true, false, 0, ml⟩
+        have hi2 : WInv S2 ([] ++ [x]) := ⟨rfl, rfl, by simp [S2], fun h => by simp [S2] at h, fun _ => rfl⟩
+        obtain ⟨a1, a2, a3, a4, a5⟩ := writeLoop_regular r S2 ([] ++ [x]) hi2 (by simpa [S2] using hok)
+        refine ⟨a1, ?_, ?_, a4, a5⟩
+        · rw [a2]
+          have hc : stripT (x :: r) = stripT [x] ++ stripT r := stripT_append [x] r
+          simp [outOf, S2, stripT_append, nlTs, nlT, List.append_assoc, hc]
+        · rw [a3]
+          simp [nlEnd, hx, S2]
+      · have hnn : nn = 0 := by have := hi.le; simp only at this; omega
+        subst hnn
+        simp only [Nat.lt_irrefl, decide_false, Bool.false_and, Bool.false_eq_true, if_false]
+        let S3 : LState := ⟨buf, hbuf, hdet, false, true, false, 0, ml⟩
+        have hi2 : WInv S3 (chunk ++ [x]) := ⟨rfl, rfl, by simp [S3], fun h => by simp [S3] at h, fun _ => rfl⟩
+        obtain ⟨a1, a2, a3, a4, a5⟩ := writeLoop_regular r S3 (chunk ++ [x]) hi2 (by simpa [S3] using hok)
+        refine ⟨a1, ?_, ?_, a4, a5⟩
+        · rw [a2]
+          have hc : stripT (x :: r) = stripT [x] ++ stripT r := stripT_append [x] r
+          simp [outOf, S3, stripT_append, List.append_assoc, hc]
+        · rw [a3]
+          simp [nlEnd, hx, S3]
+
+end ErrModel
+
+namespace ErrModel
+
+/-! ### regular text (bytes) and its token forms -/
+
+/-- byte version of `NlOK` -/
+def NlOKb : Bool → Bool → Str → Prop
+  | _, _, [] => True
+  | ne, pend, c :: r => if c = nl then (ne = true ∧ pend = false ∧ NlOKb ne true r) else NlOKb true false r
+
+def nlEndb : Bool → Bool → Str → Bool × Bool
+  | ne, pend, [] => (ne, pend)
+  | ne, _, c :: r => if c = nl then nlEndb ne true r else nlEndb true false r
+
+theorem NlOKb_mono : (s : Str) → (ne pend : Bool) → NlOKb ne pend s → NlOKb true false s
+  | [], _, _, _ => trivial
+  | c :: r, ne, pend, h => by
+    by_cases hc : c = nl
+    · subst hc
+      have h' : ne = true ∧ pend = false ∧ NlOKb ne true r := by simpa [NlOKb] using h
+      obtain ⟨h1, _, h3⟩ := h'
+      subst h1
+      show (if nl = nl then (true = true ∧ false = false ∧ NlOKb true true r) else NlOKb true false r)
+      rw [if_pos rfl]
+      exact ⟨rfl, rfl, h3⟩
+    · have h' : NlOKb true false r := by simpa [NlOKb, hc] using h
+      show (if c = nl then (true = true ∧ false = false ∧ NlOKb true true r) else NlOKb true false r)
+      rw [if_neg hc]
+      exact h'
+
+theorem NlOK_mono : (t : Toks) → (ne pend : Bool) → NlOK ne pend t → NlOK true false t
+  | [], _, _, _ => trivial
+  | x :: r, ne, pend, h => by
+    by_cases hc : x = nlT
+    · subst hc
+      have h' : ne = true ∧ pend = false ∧ NlOK ne true r := by simpa [NlOK] using h
+      obtain ⟨h1, _, h3⟩ := h'
+      subst h1
+      show (if nlT = nlT then (true = true ∧ false = false ∧ NlOK true true r) else NlOK true false r)
+      rw [if_pos rfl]
+      exact ⟨rfl, rfl, h3⟩
+    · have h' : NlOK true false r := by simpa [NlOK, hc] using h
+      show (if x = nlT then (true = true ∧ false = false ∧ NlOK true true r) else NlOK true false r)
+      rw [if_neg hc]
+      exact h'
+
+/-- the newline discipline of a token string follows from that of its stripped bytes -/
+theorem NlOK_of_strip : (t : Toks) → (ne pend : Bool) → NlOKb ne pend (stripT t) → NlOK ne pend t
+  | [], _, _, _ => trivial
+  | .op :: r, ne, pend, h => by
+    simp only [stripT_op] at h
+    simp only [NlOK, nlT]
+    simp
+    exact NlOK_of_strip r true false (NlOKb_mono _ ne pend h)
+  | .cl :: r, ne, pend, h => by
+    simp only [stripT_cl] at h
+    simp only [NlOK, nlT]
+    simp
+    exact NlOK_of_strip r true false (NlOKb_mono _ ne pend h)
+  | .u c :: r, ne, pend, h => by
+    simp only [stripT_u, NlOKb] at h
+    simp only [NlOK, nlT]
+    simp
+    by_cases hc : c = nl
+    · simp only [hc, if_true] at h
+      exact NlOK_of_strip r true false (NlOKb_mono _ ne true h.2.2)
+    · simp only [hc, if_false] at h
+      exact NlOK_of_strip r true false h
+  | .b c :: r, ne, pend, h => by
+    simp only [stripT_b, NlOKb] at h
+    simp only [NlOK, nlT]
+    by_cases hc : c = nl
+    · subst hc
+      simp only [if_true] at h ⊢
+      exact ⟨h.1, h.2.1, NlOK_of_strip r ne true h.2.2⟩
+    · have : ¬ (Tok.b c = Tok.b nl) := by simpa using hc
+      simp only [hc, if_false] at h
+      simp only [this, if_false]
+      exact NlOK_of_strip r true false h
+
+/-- text that begins and ends with a non-newline byte and has no two newlines in a row -/
+structure Reg (s : Str) : Prop where
+  ascii : Ascii s
+  ne : s ≠ []
+  ok : NlOKb false false s
+  fin : (nlEndb false false s).2 = false
+
+/-- a pending newline at the end of a token string is a pending newline at the end of its bytes -/
+theorem nlEnd_pend : (t : Toks) → (ne pend ne' pend' : Bool) → (pend = true → pend' = true) →
+    (nlEnd ne pend t).2 = true → (nlEndb ne' pend' (stripT t)).2 = true
+  | [], _, _, _, _, hp, h => by simpa [nlEnd, nlEndb] using hp h
+  | .op :: r, ne, pend, ne', pend', hp, h => by
+    simp only [nlEnd, nlT] at h; simp at h
+    simp only [stripT_op]
+    exact nlEnd_pend r true false ne' pend' (by simp) h
+  | .cl :: r, ne, pend, ne', pend', hp, h => by
+    simp only [nlEnd, nlT] at h; simp at h
+    simp only [stripT_cl]
+    exact nlEnd_pend r true false ne' pend' (by simp) h
+  | .u c :: r, ne, pend, ne', pend', hp, h => by
+    simp only [nlEnd, nlT] at h; simp at h
+    simp only [stripT_u, nlEndb]
+    split
+    · exact nlEnd_pend r true false ne' true (by simp) h
+    · exact nlEnd_pend r true false true false (by simp) h
+  | .b c :: r, ne, pend, ne', pend', hp, h => by
+    simp only [stripT_b, nlEndb]
+    by_cases hc : c = nl
+    · subst hc
+      simp only [nlEnd, nlT, if_true] at h
+      simp only [if_true]
+      exact nlEnd_pend r ne true ne' true (by simp) h
+    · have hx : ¬ (Tok.b c = nlT) := by simpa [nlT] using hc
+      simp only [nlEnd, hx, if_false] at h
+      simp only [hc, if_false]
+      exact nlEnd_pend r true false true false (by simp) h
+
+end ErrModel
+
+namespace ErrModel
+
+/-! ### one write of regular text into a fresh layer state, and the entry collected from it -/
+
+theorem WInv_init : WInv ({ wantDetail := false } : LState) [] :=
+  ⟨rfl, rfl, by simp, fun h => by simp at h, fun h => absurd rfl h⟩
+
+theorem write_regular (s : LState) (t : Toks) (hi : WInv s []) (hok : NlOK s.notEmpty (decide (s.needNewline = 1)) t) :
+    WInv (s.write t) [] ∧ outOf (s.write t) [] = outOf s [] ++ stripT t ∧
+    ((s.write t).notEmpty, decide ((s.write t).needNewline = 1)) = nlEnd s.notEmpty (decide (s.needNewline = 1)) t ∧
+    (s.write t).headBuf = s.headBuf ∧ (s.write t).hasDetail = s.hasDetail := by
+  unfold LState.write
+  split
+  · rename_i h; subst h; exact ⟨hi, by simp, by simp [nlEnd], rfl, rfl⟩
+  · exact writeLoop_regular t s [] hi hok
+
+/-- writing one regular token string into a fresh state: the buffer, stripped, is that text -/
+theorem write_fresh (t : Toks) (hr : Reg (stripT t)) :
+    stripT (({ wantDetail := false } : LState).write t).buf = stripT t ∧
+    (({ wantDetail := false } : LState).write t).headBuf = [] ∧
+    (({ wantDetail := false } : LState).write t).wantDetail = false := by
+  have hok : NlOK false false t := NlOK_of_strip t false false hr.ok
+  obtain ⟨a1, a2, a3, a4, a5⟩ := write_regular { wantDetail := false } t WInv_init (by simpa using hok)
+  have hpend : ((({ wantDetail := false } : LState).write t).needNewline = 1) → False := by
+    intro h
+    have h3 : (nlEnd false false t).2 = true := by
+      have := congrArg Prod.snd a3
+      simp only [Nat.zero_ne_one, decide_false] at this
+      rw [← this]; simp [h]
+    have := nlEnd_pend t false false false false (by simp) h3
+    rw [hr.fin] at this
+    exact absurd this (by simp)
+  refine ⟨?_, a4, a1.nd⟩
+  have := a2
+  simp only [outOf, stripT_nil, List.append_nil] at this
+  have hn : ¬ (({ wantDetail := false } : LState).write t).needNewline = 1 := hpend
+  simp only [hn, if_false, List.append_nil] at this
+  simpa using this
+
+/-- the entry collected (plain mode) from a state holding only a buffer -/
+theorem collect_plain_head (s : LState) (b wd : Bool) (d : Nat) (t : Str) (hw : s.wantDetail = false) (hh : s.headBuf = []) :
+    stripT (collect s b false wd d t).head = stripT s.buf ∧ (collect s b false wd d t).elideShort = false := by
+  unfold collect
+  cases b <;> simp [hw, hh, stripT_bytesT]
+
+end ErrModel
+
+namespace ErrModel
+
+/-! ### the one-line layout in plain mode, stripped -/
+
+/-- an entry head is either empty or has text (not only markers) -/
+def GoodHead (en : Entry) : Prop := en.head = [] ∨ stripT en.head ≠ []
+
+/-- the stripped one-line text of entries given in display order (outermost first) -/
+def txtOf : List Entry → Str
+  | [] => []
+  | en :: r =>
+    if en.elideShort = true ∨ en.head = [] then txtOf r
+    else stripT en.head ++ (if txtOf r = [] then [] else colonSp ++ txtOf r)
+
+def slStep (acc : Toks) (en : Entry) : Toks :=
+  if en.elideShort then acc
+  else
+    let acc1 := if acc ≠ [] && en.head ≠ [] then acc ++ colonSpT else acc
+    if en.head = [] then acc1 else acc1 ++ escIfNeeded false en en.head
+
+theorem singleLine_eq_foldl (l : List Entry) : singleLine false l = l.reverse.foldl slStep [] := rfl
+
+theorem stripT_colonSpT : stripT colonSpT = colonSp := stripT_bytesT colonSp
+
+theorem foldl_slStep (m : List Entry) (hm : ∀ en ∈ m, GoodHead en) (acc : Toks) (hacc : acc = [] ∨ stripT acc ≠ []) :
+    stripT (m.foldl slStep acc) =
+      (if acc = [] then txtOf m else if txtOf m = [] then stripT acc else stripT acc ++ colonSp ++ txtOf m) ∧
+    (m.foldl slStep acc = [] ∨ stripT (m.foldl slStep acc) ≠ []) := by
+  induction m generalizing acc with
+  | nil =>
+    refine ⟨?_, hacc⟩
+    by_cases ha : acc = [] <;> simp [txtOf, ha]
+  | cons en r ih =>
+    have hr : ∀ e ∈ r, GoodHead e := fun e he => hm e (by simp [he])
+    have hen := hm en (by simp)
+    simp only [List.foldl_cons]
+    by_cases hel : en.elideShort = true
+    · have h1 : slStep acc en = acc := by simp [slStep, hel]
+      rw [h1]
+      obtain ⟨i1, i2⟩ := ih hr acc hacc
+      refine ⟨?_, i2⟩
+      rw [i1]; simp [txtOf, hel]
+    · have hel' : en.elideShort = false := by simpa using hel
+      by_cases hh : en.head = []
+      · have h1 : slStep acc en = acc := by simp [slStep, hel', hh]
+        rw [h1]
+        obtain ⟨i1, i2⟩ := ih hr acc hacc
+        refine ⟨?_, i2⟩
+        rw [i1]; simp [txtOf, hh]
+      · have hs : stripT en.head ≠ [] := by rcases hen with h | h; exact absurd h hh; exact h
+        by_cases ha : acc = []
+        · subst ha
+          have h1 : slStep [] en = en.head := by simp [slStep, hel', hh, escIfNeeded]
+          rw [h1]
+          obtain ⟨i1, i2⟩ := ih hr en.head (Or.inr hs)
+          refine ⟨?_, i2⟩
+          rw [i1]
+          simp only [hh, if_false, if_true, txtOf, hel', Bool.false_eq_true, false_or]
+          split <;> simp [List.append_assoc]
+        · have hsa : stripT acc ≠ [] := by rcases hacc with h | h; exact absurd h ha; exact h
+          have h1 : slStep acc en = acc ++ colonSpT ++ en.head := by simp [slStep, hel', hh, ha, escIfNeeded]
+          rw [h1]
+          have hne : acc ++ colonSpT ++ en.head ≠ [] := by simp [ha]
+          have hsn : stripT (acc ++ colonSpT ++ en.head) ≠ [] := by
+            rw [stripT_append, stripT_append]; simp [hsa]
+          obtain ⟨i1, i2⟩ := ih hr _ (Or.inr hsn)
+          refine ⟨?_, i2⟩
+          rw [i1]
+          simp only [hne, if_false, ha, txtOf, hel', hh, Bool.false_eq_true, false_or, stripT_append, stripT_colonSpT]
+          have htx : stripT en.head ++ (if txtOf r = [] then [] else colonSp ++ txtOf r) ≠ [] := by simp [hs]
+          simp only [htx, if_false]
+          split <;> simp [List.append_assoc]
+
+/-- the stripped one-line rendering (plain mode) of a list of entries -/
+theorem stripT_singleLine (l : List Entry) (hl : ∀ en ∈ l, GoodHead en) :
+    stripT (singleLine false l) = txtOf l.reverse := by
+  rw [singleLine_eq_foldl]
+  have := (foldl_slStep l.reverse (fun en hen => hl en (by simpa using hen)) [] (Or.inl rfl)).1
+  simpa using this
+
+theorem txtOf_markElided (l : List Entry) : txtOf (markElided l).reverse = [] := by
+  have : ∀ (m : List Entry), (∀ en ∈ m, en.elideShort = true) → txtOf m = [] := by
+    intro m
+    induction m with
+    | nil => intro _; rfl
+    | cons en r ih => intro h; simp [txtOf, h en (by simp), ih (fun e he => h e (by simp [he]))]
+  apply this
+  intro en hen
+  simp only [List.mem_reverse, markElided, List.mem_map] at hen
+  obtain ⟨e0, _, rfl⟩ := hen
+  rfl
+
+theorem GoodHead_markElided (l : List Entry) (h : ∀ en ∈ l, GoodHead en) : ∀ en ∈ markElided l, GoodHead en := by
+  intro en hen
+  simp only [markElided, List.mem_map] at hen
+  obtain ⟨e0, h0, rfl⟩ := hen
+  exact h e0 h0
+
+/-- appending the entry of the outer layer -/
+theorem txtOf_snoc (sub : List Entry) (en : Entry) :
+    txtOf (sub ++ [en]).reverse =
+      (if en.elideShort = true ∨ en.head = [] then txtOf sub.reverse
+       else stripT en.head ++ (if txtOf sub.reverse = [] then [] else colonSp ++ txtOf sub.reverse)) := by
+  simp [List.reverse_append, txtOf]
+
+end ErrModel
